@@ -641,6 +641,8 @@ type c10case struct {
 	Scheme  string            `json:"scheme"`
 	Prim    c10resp           `json:"primary"`
 	Sec     map[string]string `json:"secondary"` // request class -> ok | fail | stall
+	// Cancel: the scan context is cancelled 300 ms into the probe (request timeout 8 s): the probe must end promptly
+	Cancel bool `json:"cancel,omitempty"`
 }
 
 func (k *c10case) name() string {
@@ -649,6 +651,9 @@ func (k *c10case) name() string {
 		if v, ok := k.Sec[cl]; ok {
 			sec += ":" + cl + "=" + v
 		}
+	}
+	if k.Cancel {
+		sec += ":cancelled-at-300ms"
 	}
 	return fmt.Sprintf("%s:%s:%s%s", k.Scanner, k.Scheme, k.Prim, sec)
 }
@@ -711,6 +716,9 @@ func c10run(k *c10case, sp *c10spec, generous bool) (o c10obs) {
 	if generous {
 		timeout = c10Generous
 	}
+	if k.Cancel {
+		timeout = 8 * time.Second
+	}
 	s := &c10server{https: k.Scheme == "https", ip: c10addr(sp.addrBase, k.Idx), classify: sp.classify, primaryReady: sp.ready,
 		resp: map[string]c10resp{"primary": k.Prim}, done: make(chan struct{})}
 	for cl, sym := range k.Sec {
@@ -735,6 +743,12 @@ func c10run(k *c10case, sp *c10spec, generous bool) (o c10obs) {
 	sc := c10scanner(sp, k.Scheme, timeout)
 	req := &scan.Request{DstIP: s.ip, DstPort: uint16(s.port)}
 	t0 := time.Now()
+	if k.Cancel {
+		go func() {
+			time.Sleep(300 * time.Millisecond)
+			cancel()
+		}()
+	}
 	go func() {
 		var r ret
 		defer func() {
@@ -788,6 +802,17 @@ func c10run(k *c10case, sp *c10spec, generous bool) (o c10obs) {
 		if o.Fail == "" {
 			o.Fail, o.FailDesc = key, fmt.Sprintf(f, a...)
 		}
+	}
+	if k.Cancel {
+		// cancelled while the server stalls: all that is asked is a prompt end (and no crash)
+		o.Want = "either"
+		switch {
+		case r.panic != nil:
+			fail(sp.scanner+":panic:"+k.name(), "Scan panicked: %v", r.panic)
+		case hang || r.at.Sub(t0) > 300*time.Millisecond+3*time.Second:
+			fail(sp.scanner+":cancel-not-prompt:"+k.name(), "the scan context was cancelled 300 ms into the probe (request timeout 8 s); Scan returned after %v", r.at.Sub(t0))
+		}
+		return
 	}
 	switch {
 	case r.panic != nil:
